@@ -16,9 +16,12 @@ MUST_FAIL = {
 def gen(ctx, cfg, name, simulate=None, limit=None, seed=None):
     kw = {"collect_json": True, "timeout": 3000}
     if simulate:
-        kw.update(workers=1, simulate=simulate, depth=40, seed=seed)
+        # one behaviour per distinct prefix, chosen while TLC's output is read (the simulator prints every
+        # behaviour once per successor of its last step: hundreds of copies, gigabytes in the thorough tier)
+        kw.update(workers=1, simulate=simulate, depth=40, seed=seed,
+                  sample={"steps_of": lambda b: b, "seed": seed or 1, "limit": limit})
     r = vlib.run_tlc(ctx.sc, "MC_Store", cfg, **kw)
-    lines = diverse(r.lines, limit, seed=seed or 1) if simulate else r.lines
+    lines = r.lines
     p = ctx.sc.path(name)
     with open(p, "w") as f:
         for v in lines:
